@@ -75,6 +75,15 @@ def parseCOp (s : String) : Option COp :=
     | _ => none
   else none
 
+/-- adjacent writes to the same writer joined: how often `Write` is called is not part of the
+property (a drain loop may gather), the per-writer content and the order across writers are -/
+def mergeRuns : List Event → List Event
+  | [] => []
+  | e :: rest =>
+    match mergeRuns rest with
+    | [] => [e]
+    | f :: tl => if e.writer = f.writer then ⟨e.writer, e.data ++ f.data⟩ :: tl else e :: f :: tl
+
 open Req.Client.DumpStop in
 /-- `c13stop <op>…` → per dumper generation what its writers must have received once every
 `Start` loop has returned: `g<k>=<writer>:<hex>,…`. -/
@@ -84,7 +93,7 @@ def laneStop (ops : List String) : String :=
   | some l =>
     let s := crun l
     let gens := (List.range s.count).map fun g =>
-      let evs := expectedOf s g
+      let evs := mergeRuns (expectedOf s g)
       "g" ++ toString g ++ "=" ++
         (if evs.isEmpty then "-" else ",".intercalate (evs.map fun e => toString e.writer ++ ":" ++ encodeHex e.data))
     if gens.isEmpty then "-" else " ".intercalate gens
